@@ -5,9 +5,11 @@
 package main
 
 import (
+	"flag"
 	"fmt"
 	"os"
 	"strings"
+	"sync"
 
 	dawn "github.com/pgavlin/dawn"
 	"github.com/pgavlin/dawn/internal/verif/vlib"
@@ -228,7 +230,67 @@ type replayFile struct {
 	Threads  any      `json:"thread_logs"`
 }
 
+var fFree = flag.Int("free", 0, "race pass: run every scenario this many times on the real Go scheduler (binary built with -race, no sync rewriting)")
+
+// freePass: the same callers as real goroutines; the monitor is guarded by a real mutex. The
+// race detector sees what the cooperative scheduler cannot.
+func freePass(scs []scenario) {
+	n := 0
+	for _, sc := range scs {
+		for it := 0; it < *fFree; it++ {
+			cv, err := starlark.Call(&starlark.Thread{}, dawn.VerifBuiltinCache, nil, nil)
+			if err != nil {
+				panic(err)
+			}
+			once, _ := cv.(starlark.HasAttrs).Attr("once")
+			var mu sync.Mutex
+			invoked := map[int]int{}
+			fresh := 0
+			var wg sync.WaitGroup
+			vals := make([][]starlark.Value, len(sc.Threads))
+			for ti := range sc.Threads {
+				ti := ti
+				vals[ti] = make([]starlark.Value, len(sc.Threads[ti]))
+				wg.Add(1)
+				go func() {
+					defer wg.Done()
+					th := &starlark.Thread{}
+					for ci, c := range sc.Threads[ti] {
+						c := c
+						fn := starlark.NewBuiltin("f", func(*starlark.Thread, *starlark.Builtin, starlark.Tuple, []starlark.Tuple) (starlark.Value, error) {
+							mu.Lock()
+							defer mu.Unlock()
+							if c.Fail {
+								return nil, fmt.Errorf("callable failed")
+							}
+							invoked[c.Key]++
+							fresh++
+							return starlark.MakeInt(1000*c.Key + fresh), nil
+						})
+						v, _ := starlark.Call(th, once.(starlark.Callable), starlark.Tuple{starlark.String(fmt.Sprint("k", c.Key)), fn}, nil)
+						vals[ti][ci] = v
+					}
+				}()
+			}
+			wg.Wait()
+			for k, c := range invoked {
+				if c > 1 {
+					fmt.Printf("VIOLATION property=C20 replay=-\n  free-running: callable for k%d succeeded %d times in %s\n", k, c, sc)
+					os.Exit(1)
+				}
+			}
+			n++
+		}
+	}
+	fmt.Printf("C20 race pass: %d free-running executions of %d scenarios, no data race reported by the detector\n", n, len(scs))
+	os.Exit(0)
+}
+
 func main() {
+	flag.Parse()
+	if *fFree > 0 {
+		freePass(scenarios(true))
+	}
 	r := vlib.Start("C20")
 	if r.ReplayIn != "" {
 		var rf replayFile
